@@ -278,8 +278,47 @@ pub struct Sub {
     pub name: String,
     pub cases: u32,
     pub shards: u32,
+    /// run this sub-property first in a child process (quick scale): it drives real containers
+    /// through unchecked writes, so a breach may kill the process instead of failing an oracle
+    pub canary: bool,
     run: Box<RunFn>,
     replay: Box<ReplayFn>,
+}
+
+/// Marks a sub-property as one whose violations may take the whole process down (heap corruption,
+/// std's unsafe-precondition aborts). The engine then runs it once in a child process before running
+/// it in-process; a child that dies by a signal is reported as a violation with a replay file that
+/// re-runs the child, and the in-process run is skipped.
+pub fn canary(f: impl Fn(Tier) -> Sub + 'static) -> impl Fn(Tier) -> Sub + 'static {
+    move |t| {
+        let mut s = f(t);
+        s.canary = true;
+        s
+    }
+}
+
+/// Runs `sub` alone in a child process; Some(detail) if the child was killed by a signal / aborted.
+fn canary_child(sub: &str) -> Option<String> {
+    let exe = std::env::current_exe().ok()?;
+    let out = std::process::Command::new(exe)
+        .args(["quick", "--only", sub])
+        .env("VERIF_CHILD", "1")
+        .env("VERIF_QUICK_FACTOR", "1")
+        .stdout(std::process::Stdio::null())
+        .stderr(std::process::Stdio::null())
+        .status()
+        .ok()?;
+    #[cfg(unix)]
+    {
+        use std::os::unix::process::ExitStatusExt;
+        if let Some(sig) = out.signal() {
+            return Some(format!("a child process running only sub-property '{}' was killed by signal {} (memory error / unsafe precondition in the code under test; nothing an in-process oracle can report)", sub, sig));
+        }
+    }
+    match out.code() {
+        Some(c) if c >= 128 => Some(format!("a child process running only sub-property '{}' exited with status {}", sub, c)),
+        _ => None,
+    }
 }
 
 struct Acc {
@@ -386,6 +425,7 @@ where
         let check = check.clone();
         let check2 = check.clone();
         Sub {
+            canary: false,
             name: name.clone(),
             cases,
             shards,
@@ -519,6 +559,7 @@ where
         let check = check.clone();
         let check2 = check.clone();
         Sub {
+            canary: false,
             name: name.clone(),
             cases: 0,
             shards: 1,
@@ -670,6 +711,10 @@ fn eval_replay(subs: &[Sub], path: &Path, raw: &Option<Box<dyn Fn(&[u8]) -> (Str
     };
     let sub_name = v["sub"].as_str().ok_or_else(|| format!("{}: no sub", path.display()))?;
     let sub = find_sub(subs, sub_name).ok_or_else(|| format!("{}: unknown sub {}", path.display(), sub_name))?;
+    if v["case"].get("canary").is_some() {
+        // the recorded failure was a dying child process: run the child again
+        return Ok(canary_child(sub_name).map(|d| (format!("{}:process-aborted", sub_name), d)));
+    }
     match (sub.replay)(&v["case"])? {
         Ok(()) => Ok(None),
         Err(f) => Ok(Some((format!("{}:{}", sub_name, f.sig), f.detail))),
@@ -780,6 +825,23 @@ pub fn main_for(prop: Property) -> ! {
         }
     }
     let corpus_violations = violations.len();
+
+    // canary phase: sub-properties that write through real containers run once in a child first
+    let mut canary_dead: Vec<ViolationRec> = vec![];
+    if std::env::var("VERIF_CHILD").is_err() {
+        let names: Vec<String> = subs.iter().filter(|s| s.canary).map(|s| s.name.clone()).collect();
+        for name in names {
+            if let Some(detail) = canary_child(&name) {
+                canary_dead.push(ViolationRec {
+                    sub: name.clone(),
+                    sig: format!("{}:process-aborted", name),
+                    detail,
+                    case: json!({"canary": name}),
+                });
+                subs.retain(|s| s.name != name);
+            }
+        }
+    }
 
     // work items
     let mut items: Vec<(usize, u32, u32)> = vec![];
@@ -940,6 +1002,16 @@ pub fn main_for(prop: Property) -> ! {
             println!("VIOLATION property={} replay={}", id, path.display());
             violations.push(v.clone());
         }
+    }
+    for v in &canary_dead {
+        let _ = std::fs::create_dir_all(&fail_dir);
+        let path = fail_dir.join(format!("{}-{}.json", sanitize(&v.sig), seed));
+        let doc = json!({"property": id, "sub": v.sub, "sig": v.sig, "detail": v.detail, "seed": seed, "tier": tier.name(), "case": v.case});
+        let _ = std::fs::write(&path, serde_json::to_string_pretty(&doc).unwrap());
+        println!("  {:<34} not run in-process: 1 VIOLATION(S)", v.sub);
+        println!("    {} -- {}", v.sig, v.detail);
+        println!("VIOLATION property={} replay={}", id, path.display());
+        violations.push(v.clone());
     }
     // all samples beyond the first of each sub, up to a cap
     if samples.len() < 8 {
